@@ -453,6 +453,19 @@ fn compile_certs(tx: &tir::Tx, network: Network) -> Result<Vec<primitives::Certi
         .collect::<Result<Vec<_>, _>>()
 }
 
+/// Keeps the first occurrence of every item, for fields the ledger treats as sets.
+fn without_duplicates<T: PartialEq>(items: Vec<T>) -> Vec<T> {
+    let mut unique = Vec::with_capacity(items.len());
+
+    for item in items {
+        if !unique.contains(&item) {
+            unique.push(item);
+        }
+    }
+
+    unique
+}
+
 fn compile_reference_inputs(tx: &tir::Tx) -> Result<Vec<primitives::TransactionInput>, Error> {
     let refs = tx
         .references
@@ -467,11 +480,12 @@ fn compile_reference_inputs(tx: &tir::Tx) -> Result<Vec<primitives::TransactionI
         })
         .collect::<Result<Vec<_>, Error>>()?;
 
-    Ok(refs)
+    Ok(without_duplicates(refs))
 }
 
 fn compile_collateral(tx: &tir::Tx) -> Result<Vec<TransactionInput>, Error> {
-    tx.collateral
+    let refs = tx
+        .collateral
         .iter()
         .filter_map(|collateral| collateral.utxos.as_option())
         .flat_map(coercion::expr_into_utxo_refs)
@@ -482,7 +496,9 @@ fn compile_collateral(tx: &tir::Tx) -> Result<Vec<TransactionInput>, Error> {
                 index: x.index as u64,
             })
         })
-        .collect()
+        .collect::<Result<Vec<_>, Error>>()?;
+
+    Ok(without_duplicates(refs))
 }
 
 fn compile_required_signers(tx: &tir::Tx) -> Result<Option<primitives::RequiredSigners>, Error> {
@@ -496,7 +512,7 @@ fn compile_required_signers(tx: &tir::Tx) -> Result<Option<primitives::RequiredS
         .map(coercion::expr_into_address_keyhash)
         .collect::<Result<Vec<_>, _>>()?;
 
-    Ok(primitives::RequiredSigners::from_vec(hashes))
+    Ok(primitives::RequiredSigners::from_vec(without_duplicates(hashes)))
 }
 
 fn compile_validity(validity: Option<&tir::Validity>) -> Result<(Option<u64>, Option<u64>), Error> {
